@@ -125,6 +125,14 @@ func (probeResponder) WriteResponse(rw http.ResponseWriter, pr runtime.Producer)
 	rw.WriteHeader(http.StatusAccepted)
 }
 
+// libHeaders adds the header middleware.Error would have been given (NotImplemented takes none)
+func libHeaders(r middleware.Responder) middleware.Responder {
+	return middleware.ResponderFunc(func(rw http.ResponseWriter, p runtime.Producer) {
+		rw.Header().Set("X-Verif-E", "v")
+		r.WriteResponse(rw, p)
+	})
+}
+
 // ---- the API ----------------------------------------------------------------
 
 var methods = []string{"GET", "HEAD", "POST", "DELETE"}
@@ -360,6 +368,11 @@ func execute(c *drv.Ctx, d M) bool {
 				return "hello", nil
 			case "responder":
 				return probeResponder{}, nil
+			case "libresponder": // the library's own Responders
+				if drv.Str(out["class"]) == "notimplemented" {
+					return libHeaders(middleware.NotImplemented("payload")), nil
+				}
+				return middleware.Error(drv.Int(out["code"]), "payload", http.Header{"X-Verif-E": {"v"}}), nil
 			case "error":
 				return nil, scripted
 			}
@@ -423,7 +436,7 @@ func execute(c *drv.Ctx, d M) bool {
 			body = ""
 		}
 		c.W.Event("respond", M{"entry": rm["entry"], "method": rm["method"], "target": rm["target"], "creds": rm["creds"],
-			"keycreds": rm["keycreds"], "preset": drv.Str(rm["preset"]), "stale_responder_calls": rec.stale, "declared": drv.Map(d["declared"])[drv.Str(rm["method"])],
+			"keycreds": rm["keycreds"], "preset": drv.Str(rm["preset"]), "xhdr": rw.Header().Get("X-Verif-E"), "stale_responder_calls": rec.stale, "declared": drv.Map(d["declared"])[drv.Str(rm["method"])],
 			"accept": rm["accept"], "outcome": out, "status": rw.Code, "ctype": rw.Header().Get("Content-Type"),
 			"produced": nn(rec.produced), "given": given, "body": asciiOnly(body), "errs": nn(rec.errs),
 			"wwwauth": asciiOnly(rw.Header().Get("WWW-Authenticate")), "panic": panicked})
@@ -469,6 +482,8 @@ var outcomes = []M{
 	{"k": "error", "class": "api", "code": 409, "scripted": true},
 	{"k": "error", "class": "plain", "code": 0, "scripted": true},
 	{"k": "error", "class": "composite", "code": 422, "scripted": true},
+	{"k": "libresponder", "class": "error", "code": 409, "scripted": false},
+	{"k": "libresponder", "class": "notimplemented", "code": 501, "scripted": false},
 }
 
 var declaredSets = [][]int{{200}, {201, 200}, {204}, {204, 201}, {0}, {0, 200}, {404, 0}}
